@@ -3985,11 +3985,12 @@ where
                     #[cfg(delaunay_verif)]
                     {
                         crate::verif::tick::tick("insert.cavity_iter");
-                        if iterations
-                            > crate::verif::knob::get(
-                                "insert.max_cavity_iterations",
-                                MAX_CAVITY_ITERATIONS,
-                            )
+                        if crate::verif::knob::is_set("insert.max_cavity_iterations")
+                            && iterations
+                                > crate::verif::knob::get(
+                                    "insert.max_cavity_iterations",
+                                    MAX_CAVITY_ITERATIONS,
+                                )
                         {
                             break;
                         }
@@ -4243,11 +4244,12 @@ where
             #[cfg(delaunay_verif)]
             {
                 crate::verif::tick::tick("insert.facet_repair_iter");
-                if iteration
-                    >= crate::verif::knob::get(
-                        "insert.max_repair_iterations",
-                        MAX_REPAIR_ITERATIONS,
-                    )
+                if crate::verif::knob::is_set("insert.max_repair_iterations")
+                    && iteration
+                        >= crate::verif::knob::get(
+                            "insert.max_repair_iterations",
+                            MAX_REPAIR_ITERATIONS,
+                        )
                 {
                     break;
                 }
@@ -4947,11 +4949,12 @@ where
                     #[cfg(delaunay_verif)]
                     {
                         crate::verif::tick::tick("insert.hull_repair_iter");
-                        if iteration
-                            >= crate::verif::knob::get(
-                                "insert.max_repair_iterations",
-                                MAX_REPAIR_ITERATIONS,
-                            )
+                        if crate::verif::knob::is_set("insert.max_repair_iterations")
+                            && iteration
+                                >= crate::verif::knob::get(
+                                    "insert.max_repair_iterations",
+                                    MAX_REPAIR_ITERATIONS,
+                                )
                         {
                             break;
                         }
